@@ -301,18 +301,29 @@ def r11_3(ctx):
     ctx.check("set_num_id stores the creation id", box["o"].fields.get("num_id") == 7, "num_id = 7", str(box["o"].fields.get("num_id")), fn_where(idx, fset))
 
 
+def needs_flags_valuation(ctx):
+    """needs_hi / needs_pkt are decided by the occurrence of the WORDS hi / pkt in the text of the part: true when the variable is
+    used, and not set off by words that merely contain them (the per-statement layout prints the C source as comments: `while`,
+    `this`, `shift` ...) - otherwise the two layouts report different flags for one behaviour"""
+    idx = get_index(ctx.env)
+    fi = idx.func("RZILInstruction.__init__")
+    probes = [
+        ("x = ISA2REG(hi, 's');", (True, False)), ("READ_REG(pkt, x)", (False, True)), ("this = 1;", (False, False)),
+        ("// while (i < 4) { shift = this; }\nRzILOpEffect *e = EMPTY();", (False, False)),
+        ("HEX_GET_INSN_RMODE(hi)", (True, False)), ("U32(pkt->pkt_addr)", (False, True)), ("a = (hi);\nb = f(pkt, hi);", (True, True)),
+        ("RzILOpEffect *e = EMPTY();", (False, False)),
+    ]
+    for code, exp in probes:
+        outs = Interp(idx).explore(lambda i, code=code: i.construct("RZILInstruction", ["X", [code], [["M"]], [""]], {}))
+        got = [(bool(o.value.fields["needs_hi"][0]), bool(o.value.fields["needs_pkt"][0])) if o.kind == "return" else outcome_text(o) for o in outs]
+        ctx.check(f"needs_hi/needs_pkt for `{code[:40]}`", got == [exp], str(exp), str(got), fn_where(idx, fi))
+
+
 @rule("R11.4", "C11", "metadata: needs_hi / needs_pkt are true whenever the text mentions hi / pkt; sub-routine bodies declare them; one getter per part", min_instances=10)
 def r11_4(ctx):
     idx = get_index(ctx.env)
     fi = idx.func("RZILInstruction.__init__")
-    pats = [n.args[0].value for n in ast.walk(fi.node) if isinstance(n, ast.Call) and call_name(n) == "re.search" and n.args and isinstance(n.args[0], ast.Constant)]
-    ctx.check("needs_hi test", pats == [r"\Whi\W"], r"re.search(r'\Whi\W', <text of the part>)", str(pats), fn_where(idx, fi))
-    ins = [n.left.value for n in ast.walk(fi.node) if isinstance(n, ast.Compare) and isinstance(n.left, ast.Constant) and isinstance(n.ops[0], ast.In)]
-    ctx.check("needs_pkt test", ins == ["pkt"], "'pkt' in <text of the part>", str(ins), fn_where(idx, fi))
-    for n_parts, code, exp in ((1, "x = ISA2REG(hi, 's');", (True, False)), (1, "READ_REG(pkt, x)", (False, True)), (1, "this = 1;", (False, False))):
-        outs = Interp(idx).explore(lambda i, code=code: i.construct("RZILInstruction", ["X", [code], [["M"]], [""]], {}))
-        got = [(bool(o.value.fields["needs_hi"][0]), bool(o.value.fields["needs_pkt"][0])) if o.kind == "return" else outcome_text(o) for o in outs]
-        ctx.check(f"needs_hi/needs_pkt for `{code}`", got == [exp], str(exp), str(got), fn_where(idx, fi))
+    needs_flags_valuation(ctx)
     # every literal in an emission template that mentions hi / pkt does so as a delimited token inside that literal
     classes = set()
     for b in NODE_BASES:
